@@ -286,7 +286,16 @@ def check_construction(data: dict, lab: Labels) -> None:
                 spec["noninit"] = True
         fields.append(spec)
         values[name] = v
-    classes = [{"name": "C0", "base": None, "fields": fields}]
+    split = data.get("split", 0) % (len(fields) + 1)
+    if split and split < len(fields):
+        # a two-level hierarchy: the first `split` fields live in the base class, which is built
+        # (under the switch) before the subclass is used for the first time
+        classes = [{"name": "B0", "base": None, "fields": fields[:split]},
+                   {"name": "C0", "base": "B0", "fields": fields[split:]}]
+        lab.tag("hierarchy-base-first")
+    else:
+        split = 0
+        classes = [{"name": "C0", "base": None, "fields": fields}]
     mod = CF.build(classes, postponed=bool(data.get("postponed")))
     try:
         if mod.error is not None:
@@ -301,6 +310,14 @@ def check_construction(data: dict, lab: Labels) -> None:
             require(False, "accepted-grammar-annotation-rejected", str(e)[:300])
         live = {n: decode(v, mod) for n, v in values.items()}
         kwargs = {f["name"]: live[f["name"]] for f in fields if not f.get("noninit")}
+        if split:
+            config.RUNTIME_TYPE_CHECK = True
+            try:
+                mod.get("B0")(**{f["name"]: live[f["name"]] for f in fields[:split] if not f.get("noninit")})
+            except InvalidTypes:
+                pass
+            finally:
+                config.RUNTIME_TYPE_CHECK = False
         verdicts = {f["name"]: conforms(live[f["name"]], f["ann"], mod) for f in fields}
         open_ = [n for n, r in verdicts.items() if r is None]
         bad = sorted(n for n, r in verdicts.items() if r is False)
@@ -379,7 +396,7 @@ def st_construction(ctx: Ctx):
     fld = st.fixed_dictionaries({"ann": ann, "mode": st.sampled_from([1, 2, 3, 0, 1, 2]), "pick": st.integers(0, 200),
                                  "noninit": st.sampled_from([False, False, False, True])})
     return st.fixed_dictionaries({"fields": st.lists(fld, min_size=1, max_size=5), "seed": st.integers(0, 2**31),
-                                  "postponed": st.booleans()})
+                                  "postponed": st.booleans(), "split": st.sampled_from([0, 0, 1, 2, 3])})
 
 
 PARTS = [Part("constructions", check_construction, strategy=st_construction, quick=2400, thorough=120000)]
